@@ -122,6 +122,14 @@ CHECKS = {
             'script/style/comment, every key and leaf must be present, the value must be untouched; thorough covers the full '
             'product of 10 options (6912 combinations).',
             BASE_NOTE),
+    'C18': ('E2-enum', 'model_checking',
+            'bounded-exhaustive enumeration of signatures x call patterns, differential against the interpreter',
+            'Every signature with up to 4 (5 thorough) parameters (required / defaulted positionals, *args, keyword-only, '
+            '**kwargs, annotated or not) as functor, symbolized function, symbolized class and wrapped class x every split '
+            'of positionals and keyword subsets (incl. an unknown name) between construction and call x override flag: the '
+            'final outcome equals the interpreter calling the original callable with the effective arguments; generated '
+            '__init__ signature, sym_init_args, clone / JSON round trips, nested subclassed functors.',
+            BASE_NOTE),
     'C02': ('E1-statespace', 'model_checking',
             'explicit-state BFS to closure over the real pg.List/pg.Dict with a lock-step plain list/dict reference model',
             'Every (reachable content, operation) pair over the list/dict API menu with all indices/slices/steps within '
